@@ -26,6 +26,7 @@ type Obligation struct {
 	NDecl   int      `json:"-"`
 	fv      *FV
 	Raw     string `json:"-"` // complete script for lemma obligations
+	Reveal  []string      `json:"-"` // opaque spec functions whose definition this obligation may use
 	Batch   []*Obligation `json:"-"` // children proved together by this obligation (conjunction of their goals)
 	InBatch *Obligation   `json:"-"`
 	Verdict string `json:"verdict"`
@@ -159,6 +160,7 @@ type FV struct {
 	calleesUsed map[string]bool
 	quietUpdate bool
 	batches     []*Obligation
+	reveal      []string
 }
 
 type Kont func(*State)
@@ -299,6 +301,7 @@ func (fv *FV) assert(st *State, kind string, goal Term, pos token.Pos, text stri
 		NDecl: len(fv.decls),
 		Props: fv.fc.Props,
 		fv:    fv,
+		Reveal: append(append([]string{}, fv.fc.Reveal...), fv.reveal...),
 	}
 	fv.obls = append(fv.obls, o)
 	// after asserting we may assume the goal on this path (standard)
